@@ -97,12 +97,18 @@ func c17StartX(c *Ctx, maxv string, tag string, extra string, tlsCfg *tls.Config
 	if maxv == "v3" {
 		verFlag = " --protocol-version v3" // the default (v4) would be above the maximum: refused at start-up
 	}
+	// heartbeats every 300 ms and a 3 s idle timeout make the proxy replace a backend connection that has gone quiet within
+	// seconds; a deployment with long timeouts (tag "longidle...") has no such second line of defence
+	hb, idle := "300ms", "3s"
+	if strings.HasPrefix(tag, "longidle") {
+		hb, idle = "5m", "10m"
+	}
 	fdLimit := ""
 	if strings.HasPrefix(tag, "fd") {
 		fdLimit = "ulimit -n " + strings.TrimPrefix(tag, "fd") + "; "
 	}
-	p.cmd = exec.Command("sh", "-c", fmt.Sprintf(fdLimit+"ulimit -v %d; exec %s --contact-points %s --port %d --bind %s --max-protocol-version %s%s --heartbeat-interval 300ms --idle-timeout 3s --connect-timeout 2s%s",
-		c17MemLimitKB, bin, cluster.ContactPoint(), cluster.Port, p.addr, maxv, verFlag, extra))
+	p.cmd = exec.Command("sh", "-c", fmt.Sprintf(fdLimit+"ulimit -v %d; exec %s --contact-points %s --port %d --bind %s --max-protocol-version %s%s --heartbeat-interval %s --idle-timeout %s --connect-timeout 2s%s",
+		c17MemLimitKB, bin, cluster.ContactPoint(), cluster.Port, p.addr, maxv, verFlag, hb, idle, extra))
 	p.cmd.Stdout = ef
 	p.cmd.Stderr = ef
 	p.cmd.Env = append(os.Environ(), "GOTRACEBACK=all")
@@ -860,7 +866,7 @@ func runC17(c *Ctx) {
 	r := c.R
 	r.Assume("declared frame body lengths above 16 MiB are out of scope (resource question); lz4 decoding in dependencies' assembly is not instrumented")
 	r.Assume("a start-up that fails with an error exit because the backend's system tables are unusable is not a crash; a panic / fatal error is")
-	r.Require("client_inputs_sent", "backend_hostilities", "backend_hostile_replies_sent", "control_overrides", "canary_rounds_ok", "repeated_failing_requests_sent", "tls_new_client_served_while_peers_stall", "tls_hostile_cql_inputs_sent")
+	r.Require("client_inputs_sent", "backend_hostilities", "backend_hostile_replies_sent", "control_overrides", "canary_rounds_ok", "repeated_failing_requests_sent", "tls_new_client_served_while_peers_stall", "tls_hostile_cql_inputs_sent", "requests_with_large_answers_sent_by_a_client_that_does_not_read")
 	maxvs := []string{"v4", "DSEv2"}
 	if !c.Quick() {
 		maxvs = []string{"v4", "v5", "DSEv1", "DSEv2"} // the harness clients of this check speak v4, so a v3 maximum is left to C13/C20
@@ -1177,6 +1183,11 @@ func runC17(c *Ctx) {
 		job++
 		if c.Mine(job) && mi == 0 {
 			c17RepeatedFailures(c, maxv)
+		}
+		// ------------------------------------------------------------ phase F: a client that asks for a lot and reads nothing
+		job++
+		if c.Mine(job) && mi == 0 {
+			c17NeverReadsBigAnswers(c, maxv)
 		}
 		// ------------------------------------------------------------ phase E: the same proxy behind its TLS listener
 		job++
@@ -1606,4 +1617,47 @@ func c17TLSListener(c *Ctx, maxv string) {
 		}
 		r.Obs("canary_rounds_ok", 1)
 	}
+}
+
+// c17NeverReadsBigAnswers: a client pipelines 8000 well-formed requests whose answers are 16 KiB each and reads nothing, so
+// the answers fill the socket buffers and then every queue between that client and the backends. It stays connected. Other
+// clients must go on being served (the canaries get a minute, as everywhere): "no byte sequence sent by a client ... stops it
+// serving other clients; the offending connection is answered with an error or closed". The proxy runs with a 5 min heartbeat
+// interval and a 10 min idle timeout here, so that replacing "idle" backend connections cannot paper over a stall.
+func c17NeverReadsBigAnswers(c *Ctx, maxv string) {
+	r := c.R
+	c.Step("c17 a client that pipelines requests with large answers and never reads maxv=%s", maxv)
+	p, err := c17Start(c, maxv, "longidle-neverreads")
+	if err != nil {
+		r.Inconc("c17: " + err.Error())
+		return
+	}
+	defer p.stop()
+	if why := p.canary(); why != "" {
+		r.Inconc("c17: canary fails before the phase: " + why)
+		return
+	}
+	why := ""
+	res, err := slowReaderRunAt(p.addr, p.cluster, 8000, 16384, 10*time.Second, false, func() { why = p.canary() })
+	p.cluster.SetScript(nil)
+	if err != nil {
+		r.Inconc("c17 never-reads: " + err.Error())
+		return
+	}
+	r.Eval(res.Sent)
+	r.Obs("requests_with_large_answers_sent_by_a_client_that_does_not_read", res.Sent)
+	r.NonTrivial("never-reads-big-answers/" + maxv)
+	if res.Closed {
+		r.Obs("non_reading_client_closed_by_proxy", 1)
+	}
+	if why != "" {
+		c17Crash(r, p, "client-input/never-reads-large-answers", []string{fmt.Sprintf("a client that pipelined %d requests with 16 KiB answers and read nothing (still connected)", res.Sent)}, why)
+		return
+	}
+	r.Obs("canary_rounds_ok", 1)
+	if why := p.canary(); why != "" {
+		c17Crash(r, p, "client-input/never-reads-large-answers/afterwards", []string{"the same client, gone"}, why)
+		return
+	}
+	r.Obs("canary_rounds_ok", 1)
 }
